@@ -551,7 +551,26 @@ def pred_difflim(inp):
     return True, 'ok'
 
 
-PREDS = {'difflim': pred_difflim, 'conv_delta': pred_conv_delta, 'conv_comm': pred_conv_comm, 'conv_linear': pred_conv_linear,
+def pred_longexp(inp):
+    """theorem longexposure_otf_valid on the real code: 1 at zero frequency, within (0, 1] (underflow to 0 allowed), never increasing"""
+    ot = _impl()[1]
+    nu = np.sort(np.abs(np.asarray(inp['nu'], dtype=float)))
+    keep = nu.copy()
+    v = np.asarray(ot.longexposure_otf(nu, inp['Cn'], inp['z'], inp['f'], inp['lambdabar']))
+    if not np.array_equal(nu, keep):
+        return False, 'longexposure_otf modified the caller\'s frequencies'
+    v0 = float(ot.longexposure_otf(np.zeros(1), inp['Cn'], inp['z'], inp['f'], inp['lambdabar'])[0])
+    if v0 != 1.0:
+        return False, f'OTF(0) = {v0!r}, not 1'
+    if v.shape != nu.shape or not np.isfinite(v).all() or v.min() < 0 or v.max() > 1:
+        return False, f'OTF outside [0, 1]: min {v.min()!r} max {v.max()!r}'
+    if (np.diff(v) > 0).any():
+        k = int(np.argmax(np.diff(v) > 0))
+        return False, f'OTF increases with frequency: OTF({nu[k]!r}) = {v[k]!r} < OTF({nu[k + 1]!r}) = {v[k + 1]!r}'
+    return True, 'ok'
+
+
+PREDS = {'longexp': pred_longexp, 'difflim': pred_difflim, 'conv_delta': pred_conv_delta, 'conv_comm': pred_conv_comm, 'conv_linear': pred_conv_linear,
          'conv_sum': pred_conv_sum, 'conv_direct': pred_conv_direct, 'tf_ones': pred_tf_ones, 'tf_list': pred_tf_list,
          'tf_conventions': pred_tf_conventions, 'tf_callable': pred_tf_callable, 'tf_callable_grids': pred_tf_callable_grids, 'tf_psf': pred_tf_psf, 'mtf': pred_mtf,
          'otf_container': pred_otf_container, 'input_variants': pred_input_variants, 'layouts': pred_layouts}
@@ -969,6 +988,43 @@ def correspondence(ctx):
                 ctx.disagree('difflim', dict(desc, f=f[k]), f'{got[k] if got.shape == model.shape else got.shape!r}', f'{model[k]!r}')
         ask('difflim ' + _fl([fno, wvl] + f), chk)
 
+    # ---------------- atmospheric helpers of otf.py: translated formulas (driver) against the real functions
+    for rep in range(ctx.scale(8, 40) * (2 if ctx.widen else 1)):
+        Cn = float(10.0 ** rng.uniform(-17, -13))
+        z = float(np.round(rng.uniform(10, 20000), 1))
+        f = float(np.round(rng.uniform(50, 4000), 1))
+        lam = float(np.round(rng.uniform(0.4, 2.0), 3))
+        nu = [0.0] + [float(x) for x in np.round(rng.uniform(0, 400, 8), 3)]
+        desc = {'Cn': Cn, 'z': z, 'f': f, 'lambdabar': lam}
+        _check(ctx, 'longexp', dict(desc, nu=nu), desc, True, f'Cn1e{int(np.floor(np.log10(Cn)))}')
+
+        def chk(row, desc=desc, nu=nu, Cn=Cn, z=z, f=f, lam=lam):
+            (model,) = _parse(row, len(nu))
+            ctx.case('longexp.model', desc, nontrivial=True, tag='formula')
+            got = np.asarray(ot.longexposure_otf(np.asarray(nu), Cn, z, f, lam), dtype=float)
+            if got.shape != model.shape or not (np.abs(got - model) <= 1e-12).all():
+                ctx.disagree('longexp', desc, f'{got.tolist()}', f'{model.tolist()}')
+        ask('longexp ' + _fl([Cn, z, f, lam, 2.91] + nu), chk)
+        r0 = float(np.round(rng.uniform(0.02, 0.4), 4))
+        rr = [float(x) for x in np.round(rng.uniform(0, 3, 5), 4)]
+
+        def chk(row, r0=r0, rr=rr):
+            (model,) = _parse(row, len(rr))
+            ctx.case('komogorov.model', {'r0': r0}, nontrivial=True, tag='formula')
+            got = np.asarray(ot.komogorov(np.asarray(rr), r0), dtype=float)
+            if not np.allclose(got, model, rtol=1e-12, atol=0):
+                ctx.disagree('komogorov', {'r0': r0, 'r': rr}, f'{got.tolist()}', f'{model.tolist()}')
+        ask('komogorov ' + _fl([r0] + rr), chk)
+        P, T, Ct = float(np.round(rng.uniform(600, 1050), 1)), float(np.round(rng.uniform(230, 320), 2)), float(10.0 ** rng.uniform(-5, -2))
+
+        def chk(row, P=P, T=T, Ct=Ct):
+            (model,) = _parse(row, 1)
+            ctx.case('estimate_Cn.model', {'P': P, 'T': T, 'Ct': Ct}, nontrivial=True, tag='formula')
+            got = float(ot.estimate_Cn(P, T, Ct))
+            if abs(got - model[0]) > 1e-12 * abs(model[0]):
+                ctx.disagree('estimate_Cn', {'P': P, 'T': T, 'Ct': Ct}, f'{got!r}', f'{model[0]!r}')
+        ask('estcn ' + _fl([P, T, Ct]), chk)
+
     rows = C.lean_driver('C15', lines)
     for row, fn in zip(rows, todo):
         if row.strip() == 'bad-op':
@@ -1002,6 +1058,10 @@ def search(ctx, hints):
         ok, detail = _run_pred(name, inp)
         if not ok:
             return found(name, inp, f'[corpus/{fname}] {detail}')
+    inp = {'Cn': 1e-14, 'z': 1000.0, 'f': 500.0, 'lambdabar': 0.55, 'nu': [0.0, 1.0, 5.0, 20.0, 100.0]}
+    ok, detail = _run_pred('longexp', inp)
+    if not ok:
+        return found('longexp', inp, detail)
     for fno, wvl in ((1.0, 1.0), (4.0, 0.5), (8.0, 0.6328)):
         inp = {'fno': fno, 'wavelength': wvl, 'freqs': _difflim_freqs(fno, wvl, 5), 'samples': 8}
         ok, detail = _run_pred('difflim', inp)
@@ -1076,7 +1136,7 @@ def replay(inp):
         print('no replay routine for item', name)
         return False
     shape = np.asarray(inp.get('o', inp.get('psf', [[0]]))).shape
-    print(f'replaying {name} on shape {shape}: ' + ', '.join(f'{k}={v}' for k, v in inp.items() if k in ('pos', 'shift', 'dx', 'calls', 'a', 'b', 'grid', 'polar', 'mixed', 'as_array', 'container', 'variant', 'fn', 'dtype', 'layouts', 'fno', 'wavelength', 'samples')))
+    print(f'replaying {name} on shape {shape}: ' + ', '.join(f'{k}={v}' for k, v in inp.items() if k in ('pos', 'shift', 'dx', 'calls', 'a', 'b', 'grid', 'polar', 'mixed', 'as_array', 'container', 'variant', 'fn', 'dtype', 'layouts', 'fno', 'wavelength', 'samples', 'Cn', 'z', 'f', 'lambdabar')))
     ok, detail = _run_pred(name, inp)
     print(detail)
     return not ok
@@ -1099,23 +1159,25 @@ MANIFEST_ENTRY = {
              'transform as its .data; unit DC gain and evenness of jitter/smear/pixel/OLPF; objects.slit_ft (1 at DC, 2 for crossed slits) and '
              'pinhole_ft (jinc 0) even; diffraction_limited_mtf with the real arccos / sqrt / abs / pi, for every frequency, '
              'wavelength and f-number: 1 at zero frequency, within [0, 1], even, 0 at and beyond the cut-off 1/(lambda/1000 F#) '
-             '(PARTIAL: non-increasing in |f| is checked on the real code only). On the m x n grid the proved sums equal, '
+             'and never increasing with |f| (clamp included); longexposure_otf with the real exp / real power: 1 at zero frequency, in '
+             '(0, 1], never increasing, for every Cn and non-negative z, f, lambda, h. On the m x n grid the proved sums equal, '
              'sample for sample, the executable model double sums and roll index maps (bridge theorems). TRANSLATED each run (every '
              'statement of apply_transfer_functions must be recognised, else the item is reported as TIE-DEGRADED): conv, '
              'apply_transfer_functions (both conventions, loop step, `tf = tf(**kwargs)`, return leg), forward_ft_unit, the grid '
              'call site (axis, shift), transform_psf incl. the container branch, mtf/ptf/otf, the reference index, analytic '
              'transfer functions (jitter, smear, pixel, OLPF, slit_ft, pinhole_ft), _difflim_mtf_core and diffraction_limited_mtf '
-             '(extinction, normalised frequency, array and scalar clamp). RECOGNISER FACTS only (no Lean content): polar grids from cartesian, keyword table. MODELLED AND '
+             '(extinction, normalised frequency, array and scalar clamp), longexposure_otf (unit conversions, exponent 5/3), komogorov, '
+             'estimate_Cn. RECOGNISER FACTS only (no Lean content): polar grids from cartesian, keyword table. MODELLED AND '
              'COMPARED (the driver runs the HAND model; the generated terms are tied to it by the gen_* theorems): pipelines with '
              'an O(N^2) DFT on doubles and direct sums vs prysm on all shapes up to the tier bound, impulses at every position, TF '
              'lists as real/complex arrays, as callables (sign-changing, complex, scalar-returning, zero-parameter, positionally '
              'curried slit_ft with None widths, pinhole_ft through jinc; kinds dealt from a deck so each runs every time) on built and on '
              'caller-supplied grids, mixed array/callable lists; predicates only on large/prime shapes (to 128x128), float32 / '
              'integer / Fortran / strided inputs, RichData and duck-typed containers, repeated calls (no aliasing); '
-             'diffraction_limited_mtf vs the model formula at / around / beyond the cut-off, scalar and frequencies=None paths.'),
+             'diffraction_limited_mtf vs the model formula at / around / beyond the cut-off, scalar and frequencies=None paths; '
+             'longexposure_otf / komogorov / estimate_Cn vs the model formulas.'),
     'note': ('Trusted: scipy.fft computes the DFT sum (the contract the theorems assume, proved satisfiable); fftshift/ifftshift '
              'and fftfreq semantics (compared with the model index maps every run); floating point (1e-9 relative; float32 2e-4). '
-             'Not covered: rounding error growth; the rasterisers of prysm.objects (slit, pinhole, siemensstar, ...); the atmospheric '
-             'OTF formulas; the '
+             'Not covered: rounding error growth; the rasterisers of prysm.objects (slit, pinhole, siemensstar, ...); the '
              'frequency spacing reported by the returned RichData for non-square PSFs (single dx from axis 0).'),
 }
